@@ -161,6 +161,28 @@ AVOID7 = {
  'C19': 'multiplication by -1 in Context::mul',
  'C20': 'the order of the zero and NaN tests in Interval::or_choice',
 }
+AVOID8 = {
+ 'C01': 'the MaxRegReg arm of the interpreter many-point evaluator',
+ 'C02': 'build_neg of the x86_64 JIT SIMD assembler',
+ 'C03': 'register staging in build_mul of the x86_64 JIT interval assembler',
+ 'C04': 'build_copy of the x86_64 JIT gradient assembler',
+ 'C05': 'Grad::min / Grad::max',
+ 'C06': 'RawDistancePixel::inside',
+ 'C07': 'impl Transformable for Grad',
+ 'C08': 'the winding of dc_edge (fidget-mesh/src/dc.rs)',
+ 'C09': 'ThreadPool::thread_count',
+ 'C10': 'the output vector of JitTracingEval::eval',
+ 'C11': 'the same-period guard of Interval::rem_euclid',
+ 'C12': 'identity elimination in Context::add',
+ 'C13': 'unary-chain rewrites in Context::op_unary',
+ 'C14': 'impl Transformable for f32',
+ 'C15': 'Bytecode::mem_count',
+ 'C16': 'impl TryFrom<Vec3> for Axis',
+ 'C17': 'which positional builders register_shape registers for reducers',
+ 'C18': 'where the pitch is clamped in View3::rotate',
+ 'C19': 'the extra-slot tolerance of VarMap::check_tracing_arguments / check_bulk_arguments',
+ 'C20': 'the zero test of build_or in the x86_64 JIT interval assembler',
+}
 for pid in (ids or props):
     p = props[pid]
     avoid = ''
@@ -205,6 +227,13 @@ for pid in (ids or props):
                  "(a wrong finite value where only a NaN payload or a zero sign may differ; an error of 8 ulps or of 1e-3 where a few ulps or 1e-6 are conceded; a result that is wrong only next to, not on, an excluded locus; a NaN / conservative result returned where a definite one is required, or the reverse; "
                  "a failure that is loud where it must be silent or silent where it must be loud), so that a checker with sloppy tolerances or over-broad exclusions stays silent. "
                  "Before editing, list for yourself at least five candidate sites spread over different anchor files / mechanisms and choose the one whose effect is closest to a conceded difference while still clearly violating the statement. "
+                 "The existing tests must still pass.\n")
+    if 'seed9' in root:
+        avoid = (f"\nEight earlier experiments already used (1) {AVOID[pid]}, (2) {AVOID2[pid]}, (3) {AVOID3[pid]}, (4) {AVOID4[pid]}, (5) {AVOID5[pid]}, (6) {AVOID6[pid]}, (7) {AVOID7[pid]} and (8) {AVOID8[pid]}. Pick a mechanism different from all eight, in a different function. "
+                 "The verification suite you are up against generates random programs, inputs, configurations and call histories (including special values, exact coincidences, objects with a history) and compares the library with independent reference models, bit for bit where the statement allows. "
+                 "Its remaining blind spots are most likely on the LESS-TRAVELLED PARTS OF THE PUBLIC SURFACE that the property covers: a sibling of the commonly used entry point (a second constructor or `From` / `TryFrom` impl, a convenience wrapper, a `_with_*` / `ez_*` / `new_*` variant, a method that exists for several element types, an accessor or a field of the result that is rarely read, an enum variant or configuration value that is rarely chosen, a default value, a `Clone` / `Default` / `PartialEq` / `Hash` / `Display` / (de)serialisation impl, a second output of a call such as a flag, a count or a trace), "
+                 "or one of two COUPLED OBSERVABLES of which a lazy checker looks at only one (value vs. derivative lanes, value vs. trace, image vs. its dimensions, result vs. the reported count, the returned flag vs. the stored state). "
+                 "Break only the sibling or only the second observable, leaving the commonly used path bit-identical. Before editing, list for yourself at least five candidate sites spread over different anchor files / mechanisms and choose the one a generated-input checker is least likely to call or read, while it is still clearly inside the property statement. "
                  "The existing tests must still pass.\n")
     open(f'{root}/prompt_{pid}.txt', 'w').write(f"""You are helping to evaluate a verification suite for the Rust library mkeeter/fidget (implicit-surface math expressions compiled to tapes, evaluated by an interpreter VM or an x86_64 JIT, rendered or meshed). You do NOT see the verification suite. Your job is to write ONE realistic, subtle breaking change to the library.
 
